@@ -258,6 +258,44 @@ def coarse(ty):
     return "other"
 
 
+PTR_MODELLED = {"std::shared_ptr", "std::vector", "std::optional", "std::unique_ptr", "std::array", "std::map",
+                "std::unordered_map", "std::pair", "std::tuple"}
+PTR_NOT_DATA = {"std::allocator", "std::less", "std::hash", "std::equal_to", "std::default_delete", "std::char_traits"}
+
+
+def ptr_shape(ty):
+    """pointer shape of a member type, for the pointer layer of the model (Model/SerialGraph.lean):
+       0  no shared_ptr and no raw pointer anywhere in the type
+       1  every shared_ptr sits under combinators the pointer layer models (shared_ptr, vector, optional,
+          unique_ptr, array, the VALUE of a (unordered_)map, pair, tuple)
+       2  a shared_ptr under something else (variant, set, function, the key of a map, ...)
+       3  a raw pointer"""
+    t = re.sub(r"\b(class|struct|enum|const)\s+", "", ty)
+    if "*" in t:
+        return 3
+    if "shared_ptr" not in t:
+        return 0
+    worst, stack, prev = 1, [], None
+    for tok in re.findall(r"[A-Za-z_][\w:]*|[<>,]", t):
+        if tok == "<":
+            stack.append([prev, 0])
+        elif tok == ">":
+            if stack:
+                stack.pop()
+        elif tok == ",":
+            if stack:
+                stack[-1][1] += 1
+        else:
+            if tok == "std::shared_ptr":
+                for name, idx in stack:
+                    if name in PTR_NOT_DATA:
+                        break
+                    if name not in PTR_MODELLED or (name in ("std::map", "std::unordered_map") and idx == 0):
+                        worst = 2
+            prev = tok
+    return worst
+
+
 # ---------------------------------------------------------------------------------------------
 
 def _sources(repo):
@@ -487,7 +525,9 @@ def render(classes):
          "   data members (compiler record layout), members named in serializeOp (in order),",
          "   members named in operator==. -/",
          "namespace OpmVerif.Gen.SerialClasses", "",
-         "structure Member where", "  name : String", "  kind : String", "  type : String", "  deriving Repr, DecidableEq", "",
+         "/-- `ptr`: pointer shape of the member type (0 none, 1 shared_ptr under modelled combinators only,",
+         "2 shared_ptr under an unmodelled one, 3 raw pointer) — see `ptr_shape` in translate/serialops.py. -/",
+         "structure Member where", "  name : String", "  kind : String", "  type : String", "  ptr : Nat", "  deriving Repr, DecidableEq", "",
          "/-- `serializedIdx` / `comparedIdx`: positions in `members` (kernel evaluation on numbers is fast,",
          "on strings it is not); `serialized` / `compared` keep the names in source order for display.",
          "`key`: `Coverage.strKey name` (polynomial hash), so that classes are looked up by number. -/",
@@ -502,7 +542,7 @@ def render(classes):
         L.append(f"  {{ name := {lean_str(c['name'])}, key := {str_key(c['name'])}, file := {lean_str(c['file'])},")
         L.append("    bases := [" + ", ".join(lean_str(b) for b in c["bases"]) + "],")
         L.append("    members := [")
-        L.append(",\n".join(f"      ⟨{lean_str(m['name'])}, {lean_str(m['kind'])}, {lean_str(m['type'])}⟩" for m in c["members"]))
+        L.append(",\n".join(f"      ⟨{lean_str(m['name'])}, {lean_str(m['kind'])}, {lean_str(m['type'])}, {ptr_shape(m['type'])}⟩" for m in c["members"]))
         L.append("    ],")
         L.append("    serialized := [" + ", ".join(lean_str(s) for s in c["serialized"]) + "],")
         L.append("    compared := [" + ", ".join(lean_str(s) for s in c["compared"]) + "],")
